@@ -9,7 +9,10 @@
   * `hSolve_counted`, `rk23Solve_inv`, `rk4Solve_inv` : at every exit, for every right-hand side and every observer.
   * Radau control model (`Proofs/RadauLemmas.lean`, tied by X-radau): `RadauCtl.newtonLoop_ode`, `RadauCtl.pass_ode` — every Newton
     iteration started is counted with its three evaluations, abandoned or not.
+  * BDF control model (`Proofs/BdfLemmas.lean`, tied by X-bdf): `BdfCtl.newtonLoop_ode` — every corrector iteration started is
+    counted exactly once.
 -/
+import IvpModel.Proofs.BdfLemmas
 import IvpModel.Proofs.RadauLemmas
 import IvpModel.Proofs.CtlRk
 
